@@ -2,7 +2,7 @@
    values it replaces (C10_range_expand), for runs of integers (i, h, c) with
    a step and for constant runs of every scalar type except floats. *)
 From Coq Require Import List ZArith Bool Lia.
-From RtoscV Require Import Pretty.Tok Pretty.FloatFmt Pretty.PrintModel Pretty.ScanModel Pretty.PrettyProofs.
+From RtoscV Require Import Pretty.Tok Pretty.FloatFmt Pretty.FloatArith Pretty.PrintModel Pretty.ScanModel Pretty.PrettyProofs.
 Import ListNotations.
 Local Open Scope Z_scope.
 
@@ -64,6 +64,13 @@ Proof.
   replace (av_mult (mk k j) (mk k d)) with (Some (mk k (wr k (j * d)))) by now destruct k.
   rewrite add_mk. now rewrite wr_add_r.
 Qed.
+
+(* on the integer kinds the recognisers' arithmetic (FloatArith.delta_x,
+   range_arg_x) is the integer arithmetic of Tok.v *)
+Lemma delta_x_mk l k b r u : delta_x l (mk k b) r u = delta_from_arg_vals l (mk k b) r u.
+Proof. now destruct k. Qed.
+Lemma range_arg_x_mk k d s j : range_arg_x (mk k d) (mk k s) j = range_arg (mk k d) (mk k s) j.
+Proof. now destruct k. Qed.
 
 (* ---- lists as functions of the index ---------------------------------------------- *)
 Lemma firstn_map_seq {A} (f : nat -> A) (l : list A) : forall n,
